@@ -172,8 +172,8 @@ def gen_glass(rng, defects=True):
         return dict(name=name, nd=nd, vd=vd, model=0, kind='model', cat=None)
     if r < 0.27:
         name = _pick(rng, UNKNOWN)
-        nd = round(float(rng.uniform(1.44, 1.95)), int(rng.integers(3, 8)))
-        vd = round(float(rng.uniform(20.0, 90.0)), int(rng.integers(1, 6)))
+        nd = round(float(rng.uniform(1.40, 2.05)), int(rng.integers(3, 8)))
+        vd = round(float(rng.uniform(17.0, 95.0)), int(rng.integers(1, 6)))
         return dict(name=name, nd=nd, vd=vd, model=(1 if name == '___BLANK' else 0), kind='model', cat=None)
     name, nd, vd, cat = _pick(rng, CATALOGUE)
     return dict(name=name, nd=nd, vd=vd, model=0, kind='catalogue', cat=cat)
@@ -445,6 +445,8 @@ def gen_prescription(rng):
     p['vers'] = _pick(rng, ['171115', '140124 258 36214', '181030 693 105780 L105780', '130711'])
     p['numfmt'] = _pick(rng, ['plain', 'plain', 'g17', 'E18'])
     p['encoding'] = 'utf-16' if rng.random() < 0.5 else 'utf-8'
+    r_ = rng.random()
+    p['lead'] = 'vers' if r_ < 0.7 else 'mode' if r_ < 0.85 else 'aperture'     # first line of the file (keyword-driven format)
     p['eol'] = '\r\n' if (p['encoding'] == 'utf-16' or rng.random() < 0.5) else '\n'
     return p, dict(wild=bool(wild), sane=bool(sane), a=a, finite=bool(finite))
 
@@ -675,6 +677,10 @@ def _check(case, rec, p, path, enc, nbytes, load_zemax_file, Material, AbbeMater
             if is_abbe:
                 rec.close('glass-model-abbe', _scalar(mat.abbe), g['vd'], 1e-12, scale=1.0,
                           msg='model glass Abbe number differs from the GLAS line')
+                # the model glass HAS the file's index at the d line (the library's model is a polynomial fit: 2e-3 allowed,
+                # 9e-4 measured over nd 1.40-2.05, Vd 17-95)
+                rec.close('glass-model', _scalar(mat.n(LAMBDA_D)), g['nd'], 2e-3, scale=1.0, key='glass-model:index-at-d-line',
+                          msg='model glass: n(0.5876) = %r for nd = %r on the GLAS line' % (_scalar(mat.n(LAMBDA_D)), g['nd']))
                 ref = AbbeMaterial(g['nd'], g['vd'])
                 rec.close('glass-model-dispersion', _scalar(mat.n(prim_w)), _scalar(ref.n(prim_w)), 1e-12, scale=1.0,
                           msg='loaded model glass does not behave as AbbeMaterial(nd, Vd) of the file')
